@@ -121,12 +121,12 @@ def spec_C01(prop, tier, seed, t0):
         jobs += spinalt_jobs(rng, CLASSES, profs, 4)
         jobs += fast_jobs(rng, CLASSES, 3)
     else:
-        jobs = lock_jobs(rng, CLASSES, profs, 300, ops_total=40000, mcs_ops_total=10000)
-        jobs += fast_jobs(rng, CLASSES, 30)
-        jobs += seq_jobs(rng, CLASSES, 60, programs=600)
-        jobs += lock_jobs(rng, CLASSES, profs, 60, variant="spinalt")
-        jobs += lock_jobs(rng, CLASSES, profs, 40, flavor="tsan", ops_total=8000, mcs_ops_total=3000)
-        jobs += lock_jobs(rng, CLASSES, profs, 40, flavor="asan", ops_total=12000, mcs_ops_total=4000)
+        jobs = lock_jobs(rng, CLASSES, profs, 150, ops_total=40000, mcs_ops_total=10000)
+        jobs += fast_jobs(rng, CLASSES, 12)
+        jobs += seq_jobs(rng, CLASSES, 40, programs=600)
+        jobs += lock_jobs(rng, CLASSES, profs, 40, variant="spinalt")
+        jobs += lock_jobs(rng, CLASSES, profs, 30, flavor="tsan", ops_total=8000, mcs_ops_total=3000)
+        jobs += lock_jobs(rng, CLASSES, profs, 30, flavor="asan", ops_total=12000, mcs_ops_total=4000)
     return _mk(prop, tier, seed, t0, jobs, {"grants_sharing_with_other_holders": 1000, "distinct_nontrivial": 40},
                rule=LOCK_RULE + SEQ_RULE)
 
@@ -134,10 +134,10 @@ def spec_C01(prop, tier, seed, t0):
 def spec_C07(prop, tier, seed, t0):
     rng = random.Random(seed * 7919 + 7)
     profs = ["mixed", "convert", "random", "optimistic", "prepare", "readers", "ssix", "sx"]
-    n = 10 if tier == "quick" else 200
-    jobs = seq_jobs(rng, CLASSES, 8 if tier == "quick" else 200, programs=300 if tier == "quick" else 800)
+    n = 10 if tier == "quick" else 120
+    jobs = seq_jobs(rng, CLASSES, 8 if tier == "quick" else 100, programs=300 if tier == "quick" else 800)
     jobs += lock_jobs(rng, CLASSES, profs, n)
-    jobs += fast_jobs(rng, CLASSES, 3 if tier == "quick" else 30)
+    jobs += fast_jobs(rng, CLASSES, 3 if tier == "quick" else 12)
     if tier != "quick":
         jobs += seq_jobs(rng, CLASSES, 20, programs=300, flavor="asan")
     return _mk(prop, tier, seed, t0, jobs, {"guard_ownership_checks": 100000, "programs": 4000, "op_MoveCtor": 3000,
@@ -148,7 +148,7 @@ def spec_C07(prop, tier, seed, t0):
 def spec_C08(prop, tier, seed, t0):
     rng = random.Random(seed * 7919 + 8)
     profs = ["mixed", "readers", "writers", "convert", "ssix", "sx", "optimistic", "prepare", "random"]
-    n = 40 if tier == "quick" else 400
+    n = 40 if tier == "quick" else 300
     kw = dict(flavor="tsan", ops_total=6000, mcs_ops_total=3000, threads_choices=(2, 3, 4, 6, 8),
               hold_choices=(0, 500, 2000))
     jobs = lock_jobs(rng, CLASSES, profs, n, **kw)
@@ -178,12 +178,12 @@ def spec_C02(prop, tier, seed, t0):
         jobs += spinalt_jobs(rng, CLASSES, profs, 4)
         jobs += fast_jobs(rng, CLASSES, 3)
     else:
-        jobs = seq_jobs(rng, CLASSES, 60, programs=600)
-        jobs += fast_jobs(rng, CLASSES, 30)
-        jobs += lock_jobs(rng, CLASSES, profs, 400, chaos_choices=(1, 2, 3, 3), ops_total=40000, mcs_ops_total=10000)
-        jobs += lock_jobs(rng, ["mcs"], ["xonly", "mixed", "convert", "sx"], 200, threads_choices=(16, 24),
+        jobs = seq_jobs(rng, CLASSES, 40, programs=600)
+        jobs += fast_jobs(rng, CLASSES, 12)
+        jobs += lock_jobs(rng, CLASSES, profs, 200, chaos_choices=(1, 2, 3, 3), ops_total=40000, mcs_ops_total=10000)
+        jobs += lock_jobs(rng, ["mcs"], ["xonly", "mixed", "convert", "sx"], 100, threads_choices=(16, 24),
                           mcs_ops_total=8000, chaos_choices=(2, 3))
-        jobs += lock_jobs(rng, CLASSES, profs, 100, variant="spinalt", chaos_choices=(2, 3))
+        jobs += lock_jobs(rng, CLASSES, profs, 50, variant="spinalt", chaos_choices=(2, 3))
     return _mk(prop, tier, seed, t0, jobs, {"ops_total": 100000, "distinct_nontrivial": 40, "programs": 1000},
                rule=LOCK_RULE + SEQ_RULE)
 
@@ -191,16 +191,16 @@ def spec_C02(prop, tier, seed, t0):
 def spec_C03(prop, tier, seed, t0):
     rng = random.Random(seed * 7919 + 3)
     profs = ["optimistic", "prepare", "mixed", "writers", "random"]
-    n = 60 if tier == "quick" else 1500
+    n = 60 if tier == "quick" else 600
     jobs = lock_jobs(rng, ["opt"], profs, n, hold_choices=(0, 500, 2000, 20000), chaos_choices=(2, 3, 3),
                      ops_total=30000)
-    jobs += seq_jobs(rng, ["opt"], 6 if tier == "quick" else 120, programs=300 if tier == "quick" else 600)
+    jobs += seq_jobs(rng, ["opt"], 6 if tier == "quick" else 80, programs=300 if tier == "quick" else 600)
     if tier == "quick":
         jobs += spinalt_jobs(rng, ["opt"], profs, 8, seq_runs=2)
     else:
-        jobs += lock_jobs(rng, ["opt"], profs, 200, variant="spinalt", chaos_choices=(2, 3))
-        jobs += seq_jobs(rng, ["opt"], 30, programs=400, variant="spinalt")
-        jobs += lock_jobs(rng, ["opt"], profs, 100, flavor="asan", ops_total=10000)
+        jobs += lock_jobs(rng, ["opt"], profs, 100, variant="spinalt", chaos_choices=(2, 3))
+        jobs += seq_jobs(rng, ["opt"], 20, programs=400, variant="spinalt")
+        jobs += lock_jobs(rng, ["opt"], profs, 60, flavor="asan", ops_total=10000)
     return _mk(prop, tier, seed, t0, jobs,
                {"opt_checks_ok": 5000, "opt_checks_failed": 500, "opt_windows_overlapping_an_exclusive_section": 200,
                 "op_VerifyVersion": 500, "op_TryLock": 300}, rule=LOCK_RULE + SEQ_RULE)
@@ -209,10 +209,10 @@ def spec_C03(prop, tier, seed, t0):
 def spec_C09(prop, tier, seed, t0):
     rng = random.Random(seed * 7919 + 9)
     profs = ["writers", "mixed", "convert", "optimistic", "random"]
-    n = 30 if tier == "quick" else 600
+    n = 30 if tier == "quick" else 300
     jobs = lock_jobs(rng, ["opt"], profs, n)
     jobs += lock_jobs(rng, ["opt"], profs, n, extra={"arbver": 1})
-    jobs += seq_jobs(rng, ["opt"], 10 if tier == "quick" else 200, programs=300 if tier == "quick" else 800)
+    jobs += seq_jobs(rng, ["opt"], 10 if tier == "quick" else 100, programs=300 if tier == "quick" else 800)
     return _mk(prop, tier, seed, t0, jobs, {"version_checks_under_shared_hold": 2000, "exclusive_sections": 20000,
                                            "op_SetVersion": 200, "programs": 2000}, rule=LOCK_RULE + SEQ_RULE)
 
@@ -220,11 +220,11 @@ def spec_C09(prop, tier, seed, t0):
 def spec_C10(prop, tier, seed, t0):
     rng = random.Random(seed * 7919 + 10)
     profs = ["convert", "mixed", "random", "ssix"]
-    n = 24 if tier == "quick" else 500
+    n = 24 if tier == "quick" else 250
     jobs = lock_jobs(rng, CLASSES, profs, n, chaos_choices=(2, 3, 3))
-    jobs += seq_jobs(rng, CLASSES, 3 if tier == "quick" else 60, programs=300 if tier == "quick" else 600)
+    jobs += seq_jobs(rng, CLASSES, 3 if tier == "quick" else 40, programs=300 if tier == "quick" else 600)
     if tier != "quick":
-        jobs += lock_jobs(rng, CLASSES, profs, 100, variant="spinalt", chaos_choices=(2, 3))
+        jobs += lock_jobs(rng, CLASSES, profs, 50, variant="spinalt", chaos_choices=(2, 3))
     return _mk(prop, tier, seed, t0, jobs, {"upgrades": 5000, "downgrades": 5000, "op_Upgrade": 500, "op_Downgrade": 500},
                rule=LOCK_RULE + SEQ_RULE)
 
@@ -232,10 +232,10 @@ def spec_C10(prop, tier, seed, t0):
 def spec_C11(prop, tier, seed, t0):
     rng = random.Random(seed * 7919 + 11)
     profs = ["mixed", "starve", "sx", "writers", "convert", "ssix", "readers", "random"]
-    n = 64 if tier == "quick" else 1500
+    n = 64 if tier == "quick" else 700
     jobs = lock_jobs(rng, ["mcs"], profs, n, threads_choices=(4, 6, 8, 12, 16), hold_choices=(2000, 20000, 50000),
                      mcs_ops_total=5000, chaos_choices=(1, 2, 3))
-    jobs += seq_jobs(rng, ["mcs"], 8 if tier == "quick" else 200, programs=300 if tier == "quick" else 600)
+    jobs += seq_jobs(rng, ["mcs"], 8 if tier == "quick" else 100, programs=300 if tier == "quick" else 600)
     return _mk(prop, tier, seed, t0, jobs,
                {"mcs_requests_with_arrival_stamp": 20000, "mcs_grants_with_later_conflicting_waiters": 2000,
                 "op_Lock(completed-later)": 1000}, rule=LOCK_RULE + SEQ_RULE)
@@ -244,29 +244,29 @@ def spec_C11(prop, tier, seed, t0):
 def spec_C12(prop, tier, seed, t0):
     rng = random.Random(seed * 7919 + 12)
     profs = ["mixed", "readers", "sx", "ssix", "convert", "starve", "random", "writers"]
-    n = 48 if tier == "quick" else 1000
+    n = 48 if tier == "quick" else 500
     jobs = lock_jobs(rng, ["mcs"], profs, n, hold_choices=(500, 2000, 20000), locks_choices=(1, 2, 3),
                      mcs_ops_total=6000, chaos_choices=(1, 2, 3))
     jobs += lock_jobs(rng, ["mcs"], profs, n // 2, flavor="asan", hold_choices=(500, 2000, 20000),
                       locks_choices=(1, 2, 3), mcs_ops_total=4000, chaos_choices=(1, 2, 3))
-    jobs += fast_jobs(rng, ["mcs"], 6 if tier == "quick" else 60)
+    jobs += fast_jobs(rng, ["mcs"], 6 if tier == "quick" else 20)
     # guard moves, self moves and cross-lock assignments with node accounting (op-level programs)
-    jobs += seq_jobs(rng, ["mcs"], 6 if tier == "quick" else 60, programs=300 if tier == "quick" else 600)
+    jobs += seq_jobs(rng, ["mcs"], 6 if tier == "quick" else 40, programs=300 if tier == "quick" else 600)
     return _mk(prop, tier, seed, t0, jobs, {"mcs_nodes_allocated": 500, "ops_total": 50000, "op_MoveAssign": 500})
 
 
 def spec_C13(prop, tier, seed, t0):
     rng = random.Random(seed * 7919 + 13)
     profs = ["prepare"]
-    n = 60 if tier == "quick" else 1500
+    n = 60 if tier == "quick" else 600
     jobs = lock_jobs(rng, ["opt"], profs, n, hold_choices=(2000, 20000, 50000), chaos_choices=(2, 3, 3),
                      threads_choices=(3, 4, 6, 8, 12), ops_total=20000)
-    jobs += seq_jobs(rng, ["opt"], 6 if tier == "quick" else 120, programs=300 if tier == "quick" else 600)
+    jobs += seq_jobs(rng, ["opt"], 6 if tier == "quick" else 80, programs=300 if tier == "quick" else 600)
     if tier == "quick":
         jobs += spinalt_jobs(rng, ["opt"], profs, 8, seq_runs=2)
     else:
-        jobs += seq_jobs(rng, ["opt"], 30, programs=400, variant="spinalt")
-        jobs += lock_jobs(rng, ["opt"], profs, 300, variant="spinalt", hold_choices=(2000, 20000))
+        jobs += seq_jobs(rng, ["opt"], 20, programs=400, variant="spinalt")
+        jobs += lock_jobs(rng, ["opt"], profs, 120, variant="spinalt", hold_choices=(2000, 20000))
     return _mk(prop, tier, seed, t0, jobs, {"prepare_owning": 500, "prepare_optimistic": 5000, "op_PrepareRead": 200},
                rule=LOCK_RULE + SEQ_RULE)
 
@@ -357,14 +357,14 @@ ID_RULE = ("one evaluation = one thread lifetime (claim an ID, run, exit) in wav
 def storm_jobs(tier, seed):
     caps = [2, 3, 8] if tier == "quick" else [2, 3, 5, 8, 16]
     # the ID table kept full and over-subscribed by 3N drivers, no injected delays (narrow races in the claim loop)
-    jobs = thr_jobs("churnstorm", caps, seed + 17, 4 if tier == "quick" else 16, 2 if tier == "quick" else 10, cost=8,
+    jobs = thr_jobs("churnstorm", caps, seed + 17, 4 if tier == "quick" else 10, 2 if tier == "quick" else 8, cost=8,
                     extra=lambda rng, n, i: {"preempt": (i // 2) % 2, "heavy": (i + 1) % 2})
     # N threads released from a spin barrier onto one probe position
-    jobs += thr_jobs("storm", caps, seed + 9, 2 if tier == "quick" else 12, 1 if tier == "quick" else 4, cost=4)
+    jobs += thr_jobs("storm", caps, seed + 9, 2 if tier == "quick" else 8, 1 if tier == "quick" else 4, cost=4)
     # randomised start/exit histories with an exact expectation after every step (holders = min(N, threads alive))
     # (every second run single-steps claimers and exiting threads and stalls them at one instruction boundary)
     jobs += thr_jobs("handoff", [1, 2, 3, 8] if tier == "quick" else [1, 2, 3, 5, 8, 16, 64, BIG_CAP], seed + 21,
-                     4 if tier == "quick" else 12, 1 if tier == "quick" else 5, cost=6,
+                     4 if tier == "quick" else 8, 1 if tier == "quick" else 3, cost=6,
                      extra=lambda rng, n, i: {"preempt": 1 if i % 4 == 2 else 0, "step": i % 2, "hang_s": 20})
     return jobs
 
@@ -382,7 +382,7 @@ STORM_RULE = ("; in addition claim storms without injected delays: mode=churnsto
 
 def _id_check(prop, tier, seed, t0, caps_q, floors):
     caps = caps_q if tier == "quick" else THOROUGH_CAPS
-    runs, scale = (6, 2) if tier == "quick" else (40, 10)
+    runs, scale = (6, 2) if tier == "quick" else (24, 8)
     jobs = thr_jobs("id", caps, seed, runs, scale, extra={"hang_s": 20})
     jobs += storm_jobs(tier, seed)
     floors = dict(floors)
@@ -432,10 +432,10 @@ def _epoch_extra(subs):
     return f
 
 
-def duo_jobs(tier, seed, runs_q=2, runs_t=8):
+def duo_jobs(tier, seed, runs_q=2, runs_t=6):
     # two managers, each with its own coordinator, forwarding at the same time
     return thr_jobs("epochduo", [2, 3, 8] if tier == "quick" else [2, 3, 5, 8, 16], seed + 8,
-                    runs_q if tier == "quick" else runs_t, 1 if tier == "quick" else 5,
+                    runs_q if tier == "quick" else runs_t, 1 if tier == "quick" else 4,
                     extra=lambda rng, n, i: {"pace": rng.choice([0, 0, 2000, 20000]), "preempt": i % 2})
 
 
@@ -447,17 +447,17 @@ DUO_RULE = ("; mode=epochduo: two managers in one process, each forwarded by its
 
 def spec_C04(prop, tier, seed, t0):
     caps = [2, 3, 8] if tier == "quick" else [2, 3, 5, 8, 16, 64, BIG_CAP]
-    runs, scale = (12, 1) if tier == "quick" else (60, 8)
+    runs, scale = (12, 1) if tier == "quick" else (20, 4)
     jobs = thr_jobs("epoch", caps, seed, runs, scale, extra=_epoch_extra(["A"]))
     if tier == "quick":
         jobs += thr_jobs("epoch", [BIG_CAP], seed + 4, 3, 1, extra=_epoch_extra(["A"]))
     # fresh managers first used by all workers at the same instant
-    jobs += thr_jobs("epochstart", [3, 8] if tier == "quick" else [2, 3, 5, 8, 16, BIG_CAP], seed + 6, 4 if tier == "quick" else 12,
-                     1 if tier == "quick" else 5, extra=lambda rng, n, i: {"preempt": 1 if i % 4 == 3 else 0})
+    jobs += thr_jobs("epochstart", [3, 8] if tier == "quick" else [2, 3, 5, 8, 16, BIG_CAP], seed + 6, 4 if tier == "quick" else 8,
+                     1 if tier == "quick" else 4, extra=lambda rng, n, i: {"preempt": 1 if i % 4 == 3 else 0})
     # thread churn at full speed (lifetimes of a few operations, successors steered onto the vacated ID by a dedicated
     # thread) while the coordinator is parked inside its scan of the per-thread slots
-    jobs += thr_jobs("epoch", [2, 3, 8] if tier == "quick" else [2, 3, 5, 8, 16, BIG_CAP], seed + 7, 4 if tier == "quick" else 16,
-                     1 if tier == "quick" else 6, extra=_epoch_extra(["D"]))
+    jobs += thr_jobs("epoch", [2, 3, 8] if tier == "quick" else [2, 3, 5, 8, 16, BIG_CAP], seed + 7, 4 if tier == "quick" else 8,
+                     1 if tier == "quick" else 4, extra=_epoch_extra(["D"]))
     jobs += duo_jobs(tier, seed)
     return _mk(prop, tier, seed, t0, jobs, {"guard_forward_pairs_checked": 50000, "guard_forward_pairs_on_reused_id": 5000,
                                            "thread_replacements": 3000, "chaos_overlaps:43+44": 20, "chaos_overlaps:60": 1000,
@@ -468,7 +468,7 @@ def spec_C04(prop, tier, seed, t0):
 
 def spec_C16(prop, tier, seed, t0):
     caps = QUICK_CAPS if tier == "quick" else THOROUGH_CAPS
-    runs, scale = (8, 1) if tier == "quick" else (40, 8)
+    runs, scale = (8, 1) if tier == "quick" else (16, 4)
     jobs = thr_jobs("epoch", caps, seed, runs, scale, extra=_epoch_extra(["A"]))
     jobs += thr_jobs("model", caps, seed + 1, 2 if tier == "quick" else 10, 4 if tier == "quick" else 20)
     # very long histories: every power of two up to 2^24 (quick) / 2^32 (thorough, ~5 min on one core) is crossed
@@ -481,12 +481,12 @@ def spec_C16(prop, tier, seed, t0):
 
 def spec_C17(prop, tier, seed, t0):
     caps = [2, 3, 8] if tier == "quick" else [2, 3, 5, 8, 16, 64, BIG_CAP]
-    runs, scale = (9, 1) if tier == "quick" else (60, 8)
+    runs, scale = (9, 1) if tier == "quick" else (24, 4)
     jobs = thr_jobs("epoch", caps, seed, runs, scale, extra=_epoch_extra(["A", "A", "A", "B", "A", "C"]))
     acaps = [3, 8] if tier == "quick" else [3, 8]
-    jobs += thr_jobs("epoch", acaps, seed + 5, 3 if tier == "quick" else 30, 1, flavor="asan",
+    jobs += thr_jobs("epoch", acaps, seed + 5, 3 if tier == "quick" else 16, 1, flavor="asan",
                      extra=_epoch_extra(["A", "A", "B"]))
-    jobs += duo_jobs(tier, seed, 3, 10)
+    jobs += duo_jobs(tier, seed, 3, 6)
     return _mk(prop, tier, seed, t0, jobs, {"lists_checked": 100000, "lists_held_across_a_node_boundary": 200,
                                            "forwards_started_while_the_other_manager_was_forwarding": 20000},
                rule=EPOCH_RULE + DUO_RULE + "; sub-workload A injects no delay inside EnterEpoch's read/publish gap nor inside the "
